@@ -16,11 +16,18 @@ import (
 func Dump(nodes gedcom.Nodes, withTypes bool) string {
 	var sb strings.Builder
 	var rec func(n gedcom.Node, depth int)
+	onPath := map[gedcom.Node]bool{}
 	rec = func(n gedcom.Node, depth int) {
 		if gedcom.IsNil(n) {
 			fmt.Fprintf(&sb, "%d <nil>\n", depth)
 			return
 		}
+		if onPath[n] {
+			fmt.Fprintf(&sb, "%d <cycle: node is its own descendant>\n", depth)
+			return
+		}
+		onPath[n] = true
+		defer delete(onPath, n)
 		fmt.Fprintf(&sb, "%d|%s|%s|%s", depth, n.Pointer(), n.Tag().Tag(), n.Value())
 		if withTypes {
 			fmt.Fprintf(&sb, "|%s", reflect.TypeOf(n).String())
@@ -65,6 +72,32 @@ func Identities(nodes gedcom.Nodes, into map[gedcom.Node]bool) map[gedcom.Node]b
 		Identities(n.Nodes(), into)
 	}
 	return into
+}
+
+// Shared reports a node object that occurs at two positions of the forest (or is its own
+// descendant); "" when every position has its own object.
+func Shared(nodes gedcom.Nodes) string {
+	seen := map[gedcom.Node]bool{}
+	var rec func(ns gedcom.Nodes, depth int) string
+	rec = func(ns gedcom.Nodes, depth int) string {
+		for _, n := range ns {
+			if gedcom.IsNil(n) {
+				continue
+			}
+			if seen[n] {
+				return fmt.Sprintf("the node object for %q (depth %d) occurs at more than one position", n.Tag().Tag()+" "+n.Value(), depth)
+			}
+			seen[n] = true
+			if depth > 200 {
+				return "deeper than 200"
+			}
+			if s := rec(n.Nodes(), depth+1); s != "" {
+				return s
+			}
+		}
+		return ""
+	}
+	return rec(nodes, 0)
 }
 
 // CountNodes counts the nodes of a forest.
